@@ -1,7 +1,7 @@
 (* C03 -- Trigger placement: actions fire at exactly the configured locations. *)
 From Deep Require Import Base Config Limiter Cond Match MatchProofs Handler HandlerProofs.
-From DeepGen Require Import PMatch.
-From Deep Require Import TieMatch.
+From DeepGen Require Import PMatch PEvent.
+From Deep Require Import PureSupport TieMatch TieEvent.
 From Coq Require Import Permutation.
 
 (* a line tracepoint matches exactly the line events of that file and line; a named method tracepoint
@@ -93,3 +93,49 @@ Theorem C03_the_code_collects_the_actions_of_every_matching_trigger :
   forall ts e, gen_actions_for_location ts (kind_name (e_kind e)) (e_file e) (e_line e) (e_func e) = actions_for ts e.
 Proof. exact tie_actions_for_location. Qed.
 Print Assumptions C03_the_code_collects_the_actions_of_every_matching_trigger.
+
+(* ---- tie by translation: TriggerHandler._trace_call as it is in /repo/src NOW (gen/PEvent.v) *)
+(* what one trace event does, for EVERY instantiation of what _trace_call calls: nothing after shutdown; pending callbacks first;
+   without tracepoints the scope is not traced further; otherwise every action of the matching triggers gets exactly one turn,
+   in order (`if can_trigger and acquire: process`), whatever the other actions do; then the callbacks registered by the
+   actions are pushed as one pending context *)
+Theorem C03_the_code_gives_every_matching_action_one_turn :
+  forall (S A CB PC F T : Type) inert lfe cset pcb (tp_config : list T) actions_for can_trigger acquire process
+         (callbacks_of : S -> list CB) (mk_pending : str -> str -> Z -> str -> list CB -> PC) push_pending (s : S) (frame : F) event,
+  gen_trace_call inert lfe cset pcb tp_config actions_for can_trigger acquire process callbacks_of mk_pending push_pending s frame event =
+  if inert then (s, false) else
+  let '(ev, file, line, fn) := lfe event frame in
+  let s1 := if completing ev && cset s then pcb ev file line fn s else s in
+  match tp_config with
+  | [] => (s1, false)
+  | _ :: _ =>
+    match actions_for ev file line fn with
+    | [] => (s1, true)
+    | a :: r =>
+      let s2 := fold_left (@hit_step S A can_trigger acquire process) (a :: r) s1 in
+      match callbacks_of s2 with
+      | [] => (s2, true)
+      | c :: cs => (push_pending (mk_pending ev file line fn (c :: cs)) s2, true)
+      end
+    end
+  end.
+Proof. intros. apply trace_call_normal_form. Qed.
+Print Assumptions C03_the_code_gives_every_matching_action_one_turn.
+
+(* ... and with the translated matching it IS the model's composition Handler.handle (about which the theorems above are
+   proved), for every list of triggers, event and statistics - given that one action's turn is the limiter's step on that action's
+   own statistics (shown for the translated gate / acquire in TieEventHit.v, a library lemma kept out of this file so that a change
+   to the limiter alarms C04, not C03) *)
+Theorem C03_the_code_handles_an_event_as_the_model :
+  forall act e m_can m_acquire m_process, turn_is_step act e m_can m_acquire m_process ->
+  forall trs st,
+  hs_eq (fst (code_event e m_can m_acquire m_process trs st)) (handle (flatten act trs) st e) /\
+  snd (code_event e m_can m_acquire m_process trs st) = negb (match trs with [] => true | _ => false end).
+Proof. exact tie_event. Qed.
+Print Assumptions C03_the_code_handles_an_event_as_the_model.
+
+Theorem C03_the_code_reads_the_location_from_the_frame :
+  forall (F : Type) (co_filename : F -> str) (f_lineno : F -> Z) (co_name : F -> str) ev fr,
+  gen_location_from_event co_filename f_lineno co_name ev fr = (ev, basename (co_filename fr), f_lineno fr, co_name fr).
+Proof. intros F. exact (@tie_location_from_event F). Qed.
+Print Assumptions C03_the_code_reads_the_location_from_the_frame.
